@@ -45,16 +45,23 @@ def apiGenerateWalletAddress (H : List UInt8 → List UInt8) (code : Cell) (ver 
   | some v => address H code v pk (applyOptions (generatedOptions net wc sub))
 
 /-- path 3 — `wallet.GenerateStateInit(…)` marshalled and hashed BY THE CALLER, paired with the caller's workchain as
-`ton.AccountID{int32(workchain), hash}`. (For an unsupported version Go returns the zero `tlb.StateInit{}` and a nil
-error; its marshalling is five zero bits.) -/
-def apiGenerateStateInit (code : Cell) (ver : Nat) (pk : List UInt8) (net : Option Int) (wc : Int) (sub : Option Nat) : Cell :=
+`ton.AccountID{int32(workchain), hash}`. An unsupported version is an error (after the repair; see `apiGenerateStateInitV0`). -/
+def apiGenerateStateInit (code : Cell) (ver : Nat) (pk : List UInt8) (net : Option Int) (wc : Int) (sub : Option Nat) : Outcome Cell :=
   match Version.ofGoIndex? ver with
-  | none => .ordinary [false, false, false, false, false] []
-  | some v => walletStateInit code v pk (applyOptions (generatedOptions net wc sub))
+  | none => .err "unsupported wallet version"
+  | some v => .ok (walletStateInit code v pk (applyOptions (generatedOptions net wc sub)))
+
+/-- `GenerateStateInit` as it was: the error of `newWallet` swallowed — the zero `tlb.StateInit{}` (five zero bits when
+marshalled) and a NIL error for an unsupported version -/
+def apiGenerateStateInitV0 (code : Cell) (ver : Nat) (pk : List UInt8) (net : Option Int) (wc : Int) (sub : Option Nat) : Outcome Cell :=
+  match Version.ofGoIndex? ver with
+  | none => .ok (.ordinary [false, false, false, false, false] [])
+  | some v => .ok (walletStateInit code v pk (applyOptions (generatedOptions net wc sub)))
 
 def apiStateInitAddress (H : List UInt8 → List UInt8) (code : Cell) (ver : Nat) (pk : List UInt8)
     (net : Option Int) (wc : Int) (sub : Option Nat) : Outcome Address := do
-  let h ← (apiGenerateStateInit code ver pk net wc sub).hashO? H
+  let si ← apiGenerateStateInit code ver pk net wc sub
+  let h ← si.hashO? H
   pure { workchain := toI32 wc, hash := h }
 
 /-! ### the message that is sent -/
@@ -95,6 +102,24 @@ def rawSendV2Msg (c : SendCfg) (loop : Nat → Nat → List Poll → Bool) (seqn
       else if c.v = .highloadV2R2 then { outcome := .err "highload wallet doesn't support waiting confirmation", sent := some m }
       else if loop wait seqno sc.polls then { outcome := .ok (), sent := some m }
       else { outcome := .err "waiting confirmation timeout", sent := some m }
+
+/-- the expiry `SendV2` (and `CreateMessageBody` without an explicit one) gives a message: the wall clock (seconds) plus
+the wallet's message lifetime — `DefaultMessageLifetime` = 180 s, or the value of `WithMessageLifetime` —, as the
+`uint32(validUntil.Unix())` the body builders write -/
+def defaultMessageLifetime : Nat := 180
+def sendExpiry (nowSec : Nat) (lifetime : Option Nat) : Nat := (nowSec + lifetime.getD defaultMessageLifetime) % 4294967296
+
+/-- `Send` = `SendV2` with the expiry derived from the clock -/
+def sendNow (c : SendCfg) (loop : Nat → Nat → List Poll → Bool) (nowSec : Nat) (lifetime : Option Nat) (rnd : Nat)
+    (msgs : List RawMsg) (sc : Script) (wait : Nat) : SendResultMsg :=
+  match sc.acct with
+  | .err e => { outcome := .err e, sent := none }
+  | .panic p => { outcome := .panic p, sent := none }
+  | .ok st =>
+    match nextMessageParams c.v st with
+    | .err e => { outcome := .err e, sent := none }
+    | .panic p => { outcome := .panic p, sent := none }
+    | .ok np => rawSendV2Msg c loop np.seqno (sendExpiry nowSec lifetime) rnd msgs np.init sc wait
 
 /-- `SendV2`: GetAccountState, NextMessageParams, then RawSendV2 -/
 def sendV2Msg (c : SendCfg) (loop : Nat → Nat → List Poll → Bool) (vu rnd : Nat) (msgs : List RawMsg) (sc : Script) (wait : Nat) : SendResultMsg :=
